@@ -205,11 +205,11 @@ class SqliteStateStore(Generic[MODEL_T]):
             row = cursor.fetchone()
 
             if row is None:
-                self._save_state(state, conn)
-                conn.commit()
-                return
-
-            current_state = self._deserialize_state(row[0])
+                # no row yet: merge onto the type defaults, like get()/edit_state()
+                # do, so that a parent-type state keeps the child fields
+                current_state = self._create_default_state()
+            else:
+                current_state = self._deserialize_state(row[0])
             merged = merge_state(current_state, state)
             self._save_state(merged, conn)  # type: ignore[arg-type]
             conn.commit()
